@@ -185,8 +185,10 @@ struct Ctx {
     }
     bool boundary_between(uint64_t a, uint64_t b) const {
         for (auto& m : s.marks)
+            // (an async_run is a boundary too: after a terminal per-operation cancellation the SAME service object is run again, and its
+            // wound-down reconnect loop may have started one more name resolution in between - resolve_op does not look at is_open())
             if (m.seq > a && m.seq < b && (m.kind == MarkKind::cancel_client || m.kind == MarkKind::disconnect_init || m.kind == MarkKind::destroy ||
-                                           m.kind == MarkKind::recreate || (m.kind == MarkKind::op_cancel && m.arg == 1))) return true;
+                                           m.kind == MarkKind::recreate || m.kind == MarkKind::run || (m.kind == MarkKind::op_cancel && m.arg == 1))) return true;
         return false;
     }
 };
